@@ -226,6 +226,22 @@ UNARY_CTX = ["-{0}", "!{0}", "size({0})", "{0}.size()", "{0}[0]", "{0}[-1]", "{0
              "nosuch({0})", "{0}.reduce(r, i, 0, r + i)", "{0}.min()", "{0}{{}}", "{0}{{a: 1}}", "-(-{0})", "!(!{0})",
              "[{0}, {0}].map(x, x)[2]", "{0} in {0}", "({0}).{0}" if False else "[{0}].all(x, x > 0)"]
 BINARY_OPS = ["+", "-", "*", "/", "%", "<", "<=", ">", ">=", "==", "!=", "in", "&&", "||"]
+# constructs whose failure needs a particular *spelling*: an empty literal inside an erroring expression (the error's
+# diagnostic rendering walks the source tree), macros and special forms with the wrong number of arguments, a bind
+# variable that is not an identifier, identifiers that are words of the host language, selections on message literals
+SPELLED_FORMS = [
+    "i1 + []", "[] + i1", "[[]] + i1", "{{}} + i1", "i1 + {{}}", "-[]", "[].a", "[][i1]", "{{}}[i1]", "{{}}.a", "[] < []", "i1 / i2 + [].a", "[[], i1 / i2][1]",
+    "has()", "has({0})", "has({0}, {0})", "has({0}.a, {0}.b)", "dyn()", "dyn({0}, {0})", "size()", "size({0}, {0})", "type()", "type({0}, {0})", "int()", "int({0}, {0})",
+    "{0}.map()", "{0}.map(x)", "{0}.map(x, x, x)", "{0}.map(x, y, z)", "{0}.all()", "{0}.all(x)", "{0}.all(x, true, true)", "{0}.exists()", "{0}.exists(x)",
+    "{0}.exists_one()", "{0}.exists_one(x)", "{0}.filter()", "{0}.filter(x)", "{0}.filter(x, true, x)", "{0}.map(1, x)", "{0}.map(x.y, x)", "{0}.map('x', 1)",
+    "{0}.all(1, true)", "{0}.filter([x], true)", "{0}.reduce(r, i)", "{0}.min(x)", "{0}.contains()", "{0}.contains({0}, {0})", "{0}.startsWith()", "{0}.size({0})",
+    "{0}.matches()", "{0}.getHours({0}, {0})",
+    "class", "lambda", "None", "True", "False", "def", "pass", "nonlocal", "async", "await", "yield", "del", "is", "not", "and", "or", "from", "with", "print", "exec",
+    "class + {0}", "{0}.class", "{0}.lambda", "{0}.None", "class({0})", "{0}.lambda()", "lambda({0})", "None({0})", "{0}.map(class, class)", "{0}.map(None, None)",
+    "{{'class': {0}}}.class", "has({0}.class)", "__import__", "__builtins__", "activation", "self", "base_activation", "CEL", "result", "{0}.map(activation, activation)",
+    "google.protobuf.Struct{{a: {0}}}.b", "google.protobuf.Struct{{a: {0}}}.a", "google.protobuf.Struct{{}}", "google.protobuf.Value{{}}.a", "google.protobuf.Int64Value{{value: {0}}}",
+    "google.protobuf.Int64Value{{value: {0}}}.value", "google.protobuf.ListValue{{}}[0]", "google.protobuf.NoSuch{{a: {0}}}", "NoSuch{{a: {0}}}.a", "has(google.protobuf.Struct{{a: {0}}}.b)",
+]
 
 
 def illtyped(tier):
@@ -237,6 +253,16 @@ def illtyped(tier):
             if tier == "quick" and k not in MAIN and (ci + ki) % 4:
                 continue  # quick: every context on 6 main kinds, a rotating quarter of the contexts on the other kinds
             src = ctx.format(KIND_LEAF[k])
+            if src not in seen:
+                seen.add(src)
+                yield src
+    for fi, form in enumerate(SPELLED_FORMS):
+        for ki, k in enumerate(("int", "list", "map", "string", "null")):
+            if "{0}" not in form and ki:
+                break
+            if tier == "quick" and ki and (fi + ki) % 3:
+                continue  # quick: every form on the int leaf, a rotating third on the other kinds
+            src = form.format(KIND_LEAF[k])
             if src not in seen:
                 seen.add(src)
                 yield src
